@@ -8,4 +8,4 @@ package pbkdf2
 //@ props C16 C18
 //@ may_panic_when keyLen <= 0 || keyLen > 4294967295 * spec.hashsize(h)
 //@ ensures len(result) == keyLen
-//@ ensures ref(result) != 0
+//@ ensures ref(result) != 0 && newobj(result)
